@@ -69,7 +69,7 @@ TQuiesce   == IsEv("quiesce") /\ Drained /\ C05Safety /\ AllCompleted /\ C10Inv
 TReset     == IsEv("Reset") /\ ResetMsg("STOP") /\ lastRan' = [p \in Procs |-> 0] /\ ucb' = {}
               /\ rec' = << >> /\ inProxy' = [p \in Procs |-> 0] /\ pend' = [p \in Procs |-> NoCall] /\ plain' = << >>
               /\ phase' = "none" /\ hstart' = [t \in Threads |-> 0] /\ hstop' = [t \in Threads |-> 0]
-              /\ made' = {} /\ exited' = {} /\ joined' = {} /\ ptid0' = {} /\ shut' = 0 /\ tcfail' = FALSE
+              /\ made' = {} /\ exited' = {} /\ joined' = {} /\ ptid0' = {} /\ shut' = 0 /\ tcfail' = FALSE /\ attached' = {} /\ UNCHANGED strag
               /\ ereg' = [u \in EvObjs |-> EvNoReg] /\ busy' = [u \in EvObjs |-> -1] /\ fired' = [u \in EvObjs |-> 0]
               /\ ecall' = [u \in EvObjs |-> NoECall] /\ eenv' = [u \in EvObjs |-> NoEnv]
 
@@ -113,6 +113,12 @@ TProc       == \E w \in {"proc.enter", "proc.running", "proc.onstart", "proc.ons
                  /\ IsEv(w) /\ ProcStep(E.a, w)
                  /\ IF w = "proc.running" THEN SetT(E.a, "RUNNING")
                     ELSE IF w = "proc.stop" THEN SetT(E.a, "STOP") ELSE KeepMB
+(* a never-joined thread of an EARLIER pool (its memory is gone: the hook argument maps to no current thread)
+   is still executing the tail of tp_thread_proc: the known use-after-free, reported and skipped *)
+TProcStrag  == \E w \in {"proc.onstop", "proc.ptid0", "proc.stop", "proc.exit", "hook.stop"} :
+                 /\ IsEv(w) /\ E.a >= 100000 /\ strag > 0
+                 /\ Dev("pool-freed-while-an-unjoined-thread-was-still-inside-tp_thread_proc")
+                 /\ KeepMB /\ KeepLL
 TShutCb     == IsEv("shutdown.cb") /\ SetT(E.a, "STOPING") /\ KeepLL
 TShutSet    == IsEv("shutdown.set") /\ ShutdownSet(E.v) /\ SetT(PVT, "STOP")
 TPvtRun     == IsEv("create.pvt_running") /\ SetT(PVT, "RUNNING") /\ KeepLL
@@ -120,6 +126,9 @@ TJoin0      == IsEv("sys.join0") /\ Join0 /\ KeepMB
 TJoined     == IsEv("wait.joined") /\ Joined(E.b, E.v) /\ KeepMB
 TDestroyFree == IsEv("destroy.free") /\ DestroyFree /\ KeepMB
 TRetDestroy == IsEv("ret.destroy") /\ RetDestroy(E.rc, E.mem, E.fds, E.thr) /\ KeepMB
+               /\ (E.t \notin Workers => E.rc \in {0, EBUSY})               \* (C11) from outside the pool destroy is not refused
+TAttach     == IsEv("call.attach_first") /\ Attach(0) /\ SetT(0, "STARTING")
+TRetAttach  == IsEv("ret.attach_first") /\ E.rc = 0 /\ KeepMB /\ KeepLL
 TRetWait    == IsEv("ret.shutdown_wait") /\ RetGuarded(E.t, E.rc) /\ KeepMB
 TClose      == IsEv("sys.close") /\ KeepL /\ KeepB /\ Keep
                /\ wopen' = [wopen EXCEPT ![E.pipe] = FALSE]
@@ -160,7 +169,7 @@ TNext == \/ TEvNew \/ TEvCall \/ TEvRet \/ TEvGate \/ TEvDeliver \/ TEvCb \/ TEv
          \/ TRetB \/ TDonePost \/ TDoneBegin \/ TUDone \/ TDoneFree \/ TRetCb
          \/ TCallCreate \/ THookStart \/ THookStop \/ TRetCreate \/ TStarting \/ TStartFail \/ TProc \/ TShutCb
          \/ TShutSet \/ TPvtRun \/ TJoin0 \/ TJoined \/ TDestroyFree \/ TRetDestroy \/ TRetWait \/ TClose
-         \/ TCrash \/ THang \/ TCallTC \/ TRetTC
+         \/ TCrash \/ THang \/ TCallTC \/ TRetTC \/ TAttach \/ TRetAttach \/ TProcStrag
 TSpec == TInit /\ [][TNext]_tvars
 
 Accepted == IF TLCGet("stats").diameter - 1 = Len(Tr) THEN TRUE
